@@ -260,6 +260,21 @@ func (g *c05Gen) mutants(src string) []c05Mutant {
 		return [][]string{{"func up_" + tag + " p:num", "    print 1", "end", "up_" + tag + " 1"}, {"func up_" + tag + " p:num...", "    print 1", "end", "up_" + tag + " 1"},
 			{"func up_" + tag + ":num p:num q:string", "    return p", "end", "print (up_" + tag + " 1 \"a\")"}}[rng.Intn(3)]
 	})
+	// functions are names too: a second definition, a definition of a built-in name; a procedure used as a value
+	add("redeclaration-same-scope", top, func() []string {
+		return [][]string{{"func df_" + tag, "    print 1", "end", "func df_" + tag, "    print 2", "end", "df_" + tag},
+			{"func df_" + tag + ":num", "    return 1", "end", "func df_" + tag + " a:num", "    print a", "end", "print (df_" + tag + ")"},
+			{"func print", "    cls", "end"}, {"func len:num", "    return 1", "end", "print (len)"}}[rng.Intn(4)]
+	})
+	add("type-mismatch", top, func() []string {
+		return [][]string{{"func np_" + tag, "    print 1", "end", "print (np_" + tag + ")"},
+			{"func np_" + tag, "    print 1", "end", "nv_" + tag + " := (np_" + tag + ")", "print nv_" + tag},
+			{"func np_" + tag, "    print 1", "end", "func ng_" + tag + " a:any", "    print a", "end", "ng_" + tag + " (np_" + tag + ")"},
+			{"func np_" + tag, "    print 1", "end", "print [(np_" + tag + ")]"}}[rng.Intn(4)]
+	})
+	add("wrong-argument-count", anywhere, func() []string {
+		return [][]string{{"for wa_" + tag + " := range 1 2 3 4", "    print wa_" + tag, "end"}, {"for range", "    print 1", "end"}}[rng.Intn(2)]
+	})
 	add("redeclaration-same-scope", anywhere, func() []string {
 		return [][]string{{"for dl_" + tag + " := range 2", "    dl_" + tag + " := \"again\"", "    print dl_" + tag, "end"},
 			{"for dl_" + tag + " := range [1 2]", "    print dl_" + tag, "    dl_" + tag + " := 3", "    print dl_" + tag, "end"}}[rng.Intn(2)]
@@ -492,6 +507,11 @@ func runC05(cfg Config, r *Result) {
 		{Src: "on key k:string\n    print 1\nend\n", Rule: "unused-variable", Pos: "handler-parameter"},
 		{Src: "on down x:num y:num\n    print x\nend\n", Rule: "unused-variable", Pos: "handler-parameter"},
 		{Src: "on key k:string\n    k := 2\n    print k\nend\n", Rule: "redeclaration-same-scope", Pos: "handler-parameter"},
+		{Src: "on key\n    print 1\nend\non key\n    print 2\nend\n", Rule: "redeclaration-same-scope", Pos: "handler-name"},
+		{Src: "on key k:string\n    print k\nend\non key\n    print 2\nend\n", Rule: "redeclaration-same-scope", Pos: "handler-name"},
+		{Src: "on nosuchevent\n    print 1\nend\n", Rule: "unknown-function", Pos: "handler-name"},
+		{Src: "on key k:num\n    print k\nend\n", Rule: "type-mismatch", Pos: "handler-parameter"},
+		{Src: "on down x:num\n    print x\nend\n", Rule: "wrong-argument-count", Pos: "handler-parameter"},
 		{Src: "on down x:num y:num\n    print x y\n    y:string\n    print y\nend\n", Rule: "redeclaration-same-scope", Pos: "handler-parameter"},
 	} {
 		c05Check(c, hp, "")
